@@ -86,14 +86,34 @@ type env struct {
 	reqs    map[int32]*reqInfo
 	nextReq int32
 	caseNo  int
-	seq     [nAccts + 2]int           // per-account login counter
-	open    [nAccts + 2]map[int]int64 // per account: login request -> issue time, while unanswered
+	seq     map[int64]int           // per-account login counter
+	open    map[int64]map[int]int64 // per account: login request -> issue time, while unanswered
 	pr      *probeT
 
 	// cases started by `reset timer=1` run with the real 1 s timer of PlayerMgr.Start (time passes with
 	// `advt`, every firing on the way calls update); the other cases call update explicitly (`tick`)
 	timer    bool
 	timerIds []cetimer.IdType // what Start registered, cancelled at the next reset
+
+	// the periodic update, as PlayerMgr.Start hands it to the service's timer manager (the callback of the timer
+	// object Start registered, read from the manager's table: exported API and exported fields only); the
+	// explicit `tick` calls it.  nil when the timer manager's shape is not recognised (whitebox.update=unavailable).
+	update func()
+}
+
+// timerObj: the timer object registered under id (the value stored in the timer manager's sync.Map)
+func timerObj(tm *cetimer.Mgr, id cetimer.IdType) *cetimer.Obj {
+	idx := one(fieldsOf(reflect.TypeOf(cetimer.Mgr{}), ofType(reflect.TypeOf(sync.Map{}))))
+	if idx < 0 {
+		return nil
+	}
+	m, ok := fld(reflect.ValueOf(tm), idx).Addr().Interface().(*sync.Map)
+	if !ok {
+		return nil
+	}
+	v, _ := m.Load(id)
+	o, _ := v.(*cetimer.Obj)
+	return o
 }
 
 // timerSet: the ids of the timers registered with the service's timer manager (the only sync.Map field of
@@ -363,24 +383,39 @@ func (e *env) reset(withTimer bool) {
 		e.svc.Mgr = center.NewPlayerMgr(e.svc.NodeService)
 		e.mgr = e.svc.Mgr
 		e.timer = false
-		if before, ok := timerSet(tm); withTimer && ok {
+		e.update = nil
+		if before, ok := timerSet(tm); ok {
+			// Start registers the periodic update with the timer manager; its callback is what `tick` calls.
+			// Without `timer=1` the timer is cancelled again at once (no time passes in between: it never fires).
 			e.mgr.Start()
 			after, _ := timerSet(tm)
+			var ids []cetimer.IdType
 			for id := range after {
 				if !before[id] {
-					e.timerIds = append(e.timerIds, id)
+					ids = append(ids, id)
 				}
 			}
-			e.timer = true
+			if len(ids) == 1 {
+				if o := timerObj(tm, ids[0]); o != nil && o.CB != nil {
+					cb, args := o.CB, o.Args
+					e.update = func() { cb(args...) }
+				}
+			}
+			if withTimer {
+				e.timerIds = ids
+				e.timer = true
+			} else {
+				for _, id := range ids {
+					tm.Cancel(id)
+				}
+			}
 		}
 	})
 	e.mu.Lock()
 	e.kicks, e.offs, e.acks = nil, nil, nil
 	e.reqs = map[int32]*reqInfo{}
-	e.seq = [nAccts + 2]int{}
-	for i := range e.open {
-		e.open[i] = map[int]int64{}
-	}
+	e.seq = map[int64]int{}
+	e.open = map[int64]map[int]int64{}
 	e.mu.Unlock()
 	e.t0 = common.NowMs()
 }
@@ -658,8 +693,8 @@ func (e *env) snapshot() string {
 func (e *env) staleUnanswered() int {
 	n := 0
 	now := common.NowMs()
-	for u := 1; u <= nAccts; u++ {
-		for _, t := range e.open[u] {
+	for _, reqs := range e.open {
+		for _, t := range reqs {
 			if now > t+30*1000 {
 				n++
 				break
@@ -684,6 +719,70 @@ func codeName(a *mymsg.CenterReqLoginAck) string {
 	return fmt.Sprintf("code%d", a.Code)
 }
 
+// login: one reqlogin request (a new request number of the account, remembered as unanswered until its
+// acknowledgement arrives)
+func (e *env) login(uid int64, f int, n uint32, k bool) {
+	e.mu.Lock()
+	e.seq[uid]++
+	k8 := e.seq[uid]
+	if e.open[uid] == nil {
+		e.open[uid] = map[int]int64{}
+	}
+	e.open[uid][k8] = common.NowMs()
+	e.mu.Unlock()
+	e.request("reqlogin", &mymsg.CenterReqLogin{UId: uid, ServerId: frontName(f), NetId: n, KickPrev: k},
+		&reqInfo{kind: "login", uid: uid, k8: k8, n: n})
+}
+
+const crowdBase = 1000 // `crowd b=B n=N` addresses accounts crowdBase+B+1 .. crowdBase+B+N
+const crowdMax = 4096
+
+// crowd: the other accounts of a busy centre.  For each of N accounts beyond the printed ones the ordinary
+// double-device sequence - login on gate-1 (k=0), logined, a second login from gate-2 asking for the kick -
+// is sent as three real requests; the account ends logged-in with a parked kick-wait login (on the
+// unchanged code).  The observation is a summary: fresh authorisations, other login answers, notifications
+// acknowledged, kick / offline requests; np / nt of the snapshot count the crowd's records and parked logins.
+func (e *env) crowd(ws []string) string {
+	if _, ok := hx.KV(ws, "n"); !ok {
+		return "bad-op"
+	}
+	b, n := int64(hx.KVInt(ws, "b")), int64(hx.KVInt(ws, "n"))
+	if n < 1 || n > crowdMax || b < 0 || b > crowdMax {
+		return "bad-op"
+	}
+	e.mu.Lock()
+	e.kicks, e.offs, e.acks = nil, nil, nil
+	e.mu.Unlock()
+	noti := 0
+	for i := int64(1); i <= n; i++ {
+		uid := crowdBase + b + i
+		e.login(uid, 1, uint32(2*i-1), false)
+		e.mu.Lock()
+		e.ret = "noack"
+		e.mu.Unlock()
+		e.request("onlogiclogined", &mymsg.OnLogicLogined{UId: uid, LogicId: "logic-1"}, &reqInfo{kind: "logined", uid: uid})
+		e.mu.Lock()
+		if e.ret == "-" {
+			noti++
+		}
+		e.mu.Unlock()
+		e.login(uid, 2, uint32(2*i), true)
+	}
+	e.mu.Lock()
+	ok, oth := 0, 0
+	for _, a := range e.acks {
+		if strings.HasSuffix(a, ":ok") {
+			ok++
+		} else {
+			oth++
+		}
+	}
+	obs := fmt.Sprintf("ret=- crowd=%d ok=%d oth=%d noti=%d kicks=%d offs=%d", n, ok, oth, noti, len(e.kicks), len(e.offs))
+	e.kicks, e.offs, e.acks = nil, nil, nil
+	e.mu.Unlock()
+	return obs + e.snapshot()
+}
+
 // exec interprets one op line against the real code.
 func (e *env) exec(op string) string {
 	ws := hx.Words(op)
@@ -700,6 +799,8 @@ func (e *env) exec(op string) string {
 	uid := int64(hx.KVInt(ws, "u"))
 	switch ws[0] {
 	case "tick", "adv", "advt":
+	case "crowd":
+		return e.crowd(ws)
 	case "login", "closed", "logined", "reonline", "logoutreq", "logoutdone", "abnormal", "swbegin", "swend", "offreply":
 		if uid < 1 || uid > nAccts {
 			return "bad-op"
@@ -742,13 +843,7 @@ func (e *env) exec(op string) string {
 			}
 		}
 		f, n, k := hx.KVInt(ws, "f"), uint32(hx.KVInt(ws, "n")), hx.KVInt(ws, "k") == 1
-		e.seq[uid]++
-		k8 := e.seq[uid]
-		e.mu.Lock()
-		e.open[uid][k8] = common.NowMs()
-		e.mu.Unlock()
-		e.request("reqlogin", &mymsg.CenterReqLogin{UId: uid, ServerId: frontName(f), NetId: n, KickPrev: k},
-			&reqInfo{kind: "login", uid: uid, k8: k8, n: n})
+		e.login(uid, f, n, k)
 	case "closed":
 		e.request("onsessionclose", &mymsg.CenterOnSessionClose{UId: uid}, &reqInfo{kind: ws[0], uid: uid})
 	case "logined":
@@ -799,7 +894,10 @@ func (e *env) exec(op string) string {
 		e.system.Root.Send(p.req.Sender, res)
 		e.wait()
 	case "tick":
-		call(func() { e.mgr.VerifUpdate() })
+		if e.update == nil {
+			return "whitebox-unavailable"
+		}
+		call(func() { e.update() })
 	case "adv", "advt":
 		// time passes either with the timer of PlayerMgr.Start running (advt) or without it (adv)
 		if e.timer != (ws[0] == "advt") {
@@ -859,6 +957,7 @@ type gen struct {
 	afterAdv bool    // the previous op was a clock advance: probe the limits now
 	timer    bool    // this case runs with the 1 s timer of PlayerMgr.Start (advt instead of adv)
 	timerOK  bool    // the timer manager's shape is recognised (else no timer cases)
+	crowd    int     // this case starts with that many other accounts holding a parked login (0 = none)
 }
 
 func (g *gen) uid() int {
@@ -954,7 +1053,7 @@ func (g *gen) adv() string {
 // protocol's own sequences (login, logined, second login parks, closed, offline reply, reconnect,
 // re-online, logout request, logout done, tick; line switch begin/end) are common, with every
 // other operation still possible in every state.
-var malformed = []string{"login u=9 f=1 n=1 k=1", "closed u=0", "frobnicate u=1", "login u=1 f=1", "adv", "logined lg=1", "swend u=77 ok=1",
+var malformed = []string{"login u=9 f=1 n=1 k=1", "closed u=0", "frobnicate u=1", "crowd n=0", "crowd b=3", "crowd b=0 n=5000", "login u=1 f=1", "adv", "logined lg=1", "swend u=77 ok=1",
 	"login u=1 f=7 n=4 k=1", "login u=1 f=0 n=5 k=1", "adv ms=0", ""}
 
 func (g *gen) op() string {
@@ -1009,6 +1108,13 @@ func (g *gen) op() string {
 	}
 	if !has("po=0") && has("po=") {
 		w["offreply"] += 16
+	}
+	if g.crowd > 0 {
+		w["adv"] = 1 // 30 s after the crowd parked, every operation that scans is map-order dependent (not driven)
+		w["login"] += 6
+		if has("tk=") && !has("tk=-") {
+			w["login"] += 8 // the impatient second device asks again
+		}
 	}
 	if g.afterAdv {
 		g.afterAdv = false
@@ -1214,7 +1320,17 @@ func (g *gen) newCase() {
 	if g.timer {
 		g.h.Count("case.timer")
 	}
+	// a busy centre: many other accounts logged in with a second device waiting for the kick (table sizes
+	// around powers of two and a few small ones), about 1 case in 80
+	g.crowd = 0
+	if r.Intn(80) == 0 {
+		g.crowd = crowdSizes[r.Intn(len(crowdSizes))] + r.Intn(3) - 1
+		g.uids = 1
+		g.h.Count("case.crowd")
+	}
 }
+
+var crowdSizes = []int{2, 64, 512, 1024, 1024, 1200}
 
 func (g *gen) resetOp() string {
 	if g.timer {
@@ -1273,12 +1389,17 @@ func TestRun(t *testing.T) {
 		g := &gen{h: h, timerOK: e.timerOK()}
 		if !g.timerOK {
 			h.Count("probe.unresolved.timer")
+			h.Count("whitebox.update=unavailable")
 		}
 		n := hx.EnvInt("VERIF_N", 1500)
 		for i := 0; i < n; i++ {
 			g.newCase()
 			run(g.resetOp())
 			l := 6 + h.R.Intn(20)
+			if g.crowd > 0 {
+				op := fmt.Sprintf("crowd b=0 n=%d", g.crowd)
+				g.account(op, run(op))
+			}
 			for j := 0; j < l; j++ {
 				op := g.op()
 				g.account(op, run(op))
